@@ -102,7 +102,7 @@ def build(case):
             first, states = branch_states(i, "B%d" % i, {"Parameters": {"k": i}})
             branches.append({"StartAt": first, "States": states})
         fan = dict({"Type": "Parallel", "Branches": branches, "Next": "After", "ResultPath": "$.r"}, **handlers)
-        input_value = {"x": 1}
+        input_value = {"x": 1, "two": [0, 1]}
     else:
         # a Map cannot give different iterations different state machines: failures are task behaviours keyed by the item
         for i in range(n):
@@ -114,7 +114,7 @@ def build(case):
         fan = dict({"Type": "Map", "ItemsPath": "$.items", "ItemProcessor": {"StartAt": "IT", "States": tstates}, "Next": "After", "ResultPath": "$.r"}, **handlers)
         if case.get("mc") is not None:
             fan["MaxConcurrency"] = case["mc"]
-        input_value = {"x": 1, "items": list(range(n))}
+        input_value = {"x": 1, "items": list(range(n)), "two": [0, 1]}
     # slow_catch: the Catch target is still running while the cancelled siblings' timers / replies / queued events come in (the execution is not over yet)
     states = {"After": {"Type": "Task", "Resource": fn("after"), "End": True}, "Caught": {"Type": "Task", "Resource": fn("slow" if case.get("slow_catch") else "after"), "Parameters": {"caught.$": "$"}, "End": True}}
     if case.get("outer"):
@@ -123,8 +123,15 @@ def build(case):
         inner = {"StartAt": "F", "States": {"F": states.pop("F"), "Caught": dict(states.pop("Caught"))}}
         if case.get("deep"):
             # one more level: the fan-out is a Branch of a Parallel state that is itself a Branch of the outer state (nesting depth 3)
-            inner = {"StartAt": "Mid", "States": {"Mid": {"Type": "Parallel", "End": True, "Branches": [inner, {"StartAt": "MidP", "States": {"MidP": {"Type": "Pass", "End": True}}}]}}}
+            second = {"StartAt": "MidP", "States": {"MidP": {"Type": "Pass", "End": True}}}
+            if case.get("mid_all_fanouts"):
+                # ... all of whose Branches are fan-outs themselves (a Map over two items whose Task takes a second)
+                second = {"StartAt": "MidM", "States": {"MidM": {"Type": "Map", "ItemsPath": "$.two", "End": True, "ItemProcessor": {"StartAt": "MidT", "States": {"MidT": {"Type": "Task", "Resource": fn("item2"), "End": True}}}}}}
+            inner = {"StartAt": "Mid", "States": {"Mid": {"Type": "Parallel", "End": True, "Branches": [inner, second]}}}
         outer = {"Type": "Parallel", "Next": "After", "Branches": [inner, {"StartAt": "Slow", "States": {"Slow": {"Type": "Task", "Resource": fn("slow"), "End": True}}}]}
+        if case.get("outer_retry"):
+            # the outermost state is retried once: everything below it, at any depth, belongs to the failed attempt and has to be cancelled and released
+            outer["Retry"] = [{"ErrorEquals": ["States.ALL"], "IntervalSeconds": 1, "MaxAttempts": 1, "BackoffRate": 1.0}]
         if case.get("outer_catch"):
             outer["Catch"] = [{"ErrorEquals": ["States.ALL"], "Next": "OuterCaught", "ResultPath": "$.outer"}]
             # slow_outer_catch: the outer Catch target is still running when the (already failed) inner fan-out's stragglers fail, time out or reply
@@ -218,7 +225,9 @@ def extra(case, sched, starts, res):
             fails.append(("catch-target-entered-%d-times" % caught_n, "the Catch target was entered %d times" % caught_n))
         max_attempts = 1 + ((c6.get("retry") or {}).get("MaxAttempts", 3) if c6.get("retry") else 0)
         outer = (1 if c6.get("outer") else 0) + (1 if c6.get("outer") and c6.get("deep") else 0)
-        if started_n - outer > max_attempts:
+        if c6.get("mid_all_fanouts") or c6.get("outer_retry"):
+            pass        # (the extra fan-out in the middle state and the retried outer state start fan-outs of their own: the simple count does not apply)
+        elif started_n - outer > max_attempts:
             fails.append(("fanout-started-too-often", "the fan-out was started %d times, at most %d attempts are allowed" % (started_n - outer, max_attempts)))
     # nothing a sibling does after the fan-out has failed adds history: from a (Parallel|Map)StateFailed event up to the next (re-)entry of a fan-out state (a Retry) no state of a
     # Branch/Iteration is entered or exited, and (every Task outside the Branches succeeds in these machines, unless the outer sibling is the failing one) no task failure is logged
@@ -321,6 +330,10 @@ def cases():
             c["delays"] = [draw(st.sampled_from([1, 3])) if c["fails"][i] else c["delays"][i] for i in range(n)]
         if c.get("outer") and draw(st.integers(0, 2)) == 0:
             c["deep"] = True
+            if draw(st.booleans()):
+                c["mid_all_fanouts"] = True
+                if c.get("outer_sibling_fails") and draw(st.booleans()):
+                    c["outer_retry"] = True
         definition, input_value, oracle = build(c)
         sched = draw(st.lists(st.integers(0, 6), max_size=50))
         mcase = {"definition": definition, "input": input_value, "oracle": oracle, "type": draw(st.sampled_from(["STANDARD", "STANDARD", "EXPRESS"])), "c06": c,
@@ -356,7 +369,7 @@ def shard(k, seed, tier, examples=60):
         nfail = sum(1 for f in c6["fails"] if f)
         camp.case(c, nontrivial=nontrivial(case, sched, starts, res["info"]),
                   classes=["kind-" + c6["kind"], "failing-%s" % ("none" if nfail == 0 else "one" if nfail == 1 else "all" if nfail == c6["n"] else "several"),
-                           "handlers-" + ("+".join(h for h in ("retry", "catch") if c6.get(h)) or "none"), "outer" if c6.get("outer") else "flat", "type-" + case["type"],] + (["depth-3"] if c6.get("deep") else []) + [
+                           "handlers-" + ("+".join(h for h in ("retry", "catch") if c6.get(h)) or "none"), "outer" if c6.get("outer") else "flat", "type-" + case["type"],] + (["depth-3"] if c6.get("deep") else []) + (["depth-3-only-fanouts-in-the-middle"] if c6.get("mid_all_fanouts") else []) + (["outermost-state-retried"] if c6.get("outer_retry") else []) + [
                            "schedule-" + ("deviating" if any(sched) else "canonical")] + (["workers-reply-twice"] if c6.get("dup_replies") else []) + ["failkind-" + f for f in set(x for x in c6["fails"] if x)],
                   sample=dict(c, outcomes=res["info"].get("outcomes"), trace=res["info"].get("trace", [])[:20]))
         for b, d in tag(fails, c6):
